@@ -204,6 +204,12 @@ theorem reroot_sequence (t : Table) (hw : WF t) (rs : List Int) :
     (uedges (rerootMany t rs)).Perm (uedges t) :=
   ⟨ids_rerootMany t rs, coords_rerootMany t rs, uedges_rerootMany_perm hw rs⟩
 
+/-- A target that is already a root (or does not exist) leaves the table exactly as it is. -/
+theorem reroot_current_root_noop (t : Table) (hw : WF t) (n : Node) (hn : n ∈ t) (hp : n.parent < 0) : reroot t n.id = t := by
+  unfold reroot
+  rw [find?_of_mem hw.1 hn]
+  simp [hp]
+
 theorem reroot_sequence_last_is_root (t : Table) (rs : List Int) (r : Int) (hr : r ∈ ids t) :
     ∃ n ∈ rerootMany t (rs ++ [r]), n.id = r ∧ n.parent < 0 := rerootMany_last_root t rs r hr
 
